@@ -77,6 +77,32 @@ def check_labels(h: Harness, site, spec, b, v):
     h.agree(site, ["labels", line_spec, c], labs, nontrivial=nontrivial)
     h.holds(site, "labels-differ-from-structure", ["prop_labels", line_spec, c, labs],
             f"gengy_* metadata differs from an independent traversal of {s[:240]}", [sx(line_spec), s])
+    # the type index of the root lists OBJECTS: exactly the production instances of THIS program (by identity, not by equality)
+    if type(v) in b.index and isinstance(getattr(v, "gengy_types_this_way", None), dict):
+        mine, todo = {}, [v]
+        while todo:
+            x = todo.pop()
+            if isinstance(x, (list, tuple)):
+                todo += list(x)
+            elif type(x) in b.index:
+                mine[id(x)] = x
+                todo += [getattr(x, n_, None) for n_ in getattr(type(x), "__gengy_field_names__", ())]
+        for t, objs in v.gengy_types_this_way.items():
+            if t not in b.index:
+                continue
+            strangers = [o for o in objs if id(o) not in mine]
+            if strangers:
+                h.fail(site, "labels-differ-from-structure",
+                       f"the type index of the root lists {len(strangers)} {t.__name__} object(s) that are not part of this program "
+                       f"(an equal-looking node of another program?): {s[:160]}", [sx(line_spec), s])
+                break
+        else:
+            listed = {id(o) for t, objs in v.gengy_types_this_way.items() if t in b.index for o in objs}
+            missing = [x for i_, x in mine.items() if i_ not in listed]
+            if missing:
+                h.fail(site, "labels-differ-from-structure",
+                       f"the type index of the root does not list {len(missing)} production instance(s) of its own program, e.g. a {type(missing[0]).__name__}: {s[:160]}",
+                       [sx(line_spec), s])
 
 
 def check_mapped_programs(h: Harness, spec, b, g, mind, rng):
